@@ -1,4 +1,3 @@
-use serde::de::IntoDeserializer as _;
 
 use crate::{percent_decode_utf8, percent_decode};
 use std::borrow::Cow;
